@@ -422,3 +422,50 @@ func c13kubeTombstone(c *Ctx) {
 		return true, ""
 	})
 }
+
+// c13optionsFirst (R14, round 7): a subscriber is assembled from its options. NewSubscriber hands the option functions
+// the Subscriber under construction; whatever it derives from that object's fields — the container built for
+// `exclusive`, the arguments of Monitor (`exactMatch`, `items`) — is read only after the last option ran. A field read
+// (and acted upon) before the option loop freezes the default: `Exclusive()` then sets a flag nobody looks at any more
+// and the container keeps every key of a value instead of the most recent one.
+func c13optionsFirst(c *Ctx) {
+	rule := "C13.R14"
+	pkg := "core/discov"
+	f := c.fn(rule, pkg, "NewSubscriber")
+	if f == nil {
+		return
+	}
+	ps := c.paths(rule, f, px.Config{MaxVisits: 2})
+	applied := 0
+	c.forall(rule, pkg+".NewSubscriber#options-first", "no field of the Subscriber under construction is read before the last option function was applied to it (the container and the Monitor arguments are derived from the configured object)", f, ps, func(p *px.Path) (bool, string) {
+		var firstRead *px.Event
+		for i := range p.Events {
+			e := &p.Events[i]
+			switch {
+			case e.Kind == px.EvLoad && e.Addr != nil && e.Addr.Kind == px.KFieldAddr:
+				if b := e.Addr.X.Strip(false); b != nil && b.Kind == px.KAlloc && strings.HasSuffix(typeString(b.Typ), "discov.Subscriber") && firstRead == nil {
+					firstRead = e
+				}
+			case e.Kind == px.EvCall && e.Call != nil && e.Call.FnSym != nil:
+				takes := false
+				for _, a := range e.Call.Args {
+					if s := a.Strip(false); s != nil && s.Kind == px.KAlloc && strings.HasSuffix(typeString(s.Typ), "discov.Subscriber") {
+						takes = true
+					}
+				}
+				if !takes {
+					continue
+				}
+				applied++
+				if firstRead != nil {
+					_, fname, _ := firstRead.Addr.FieldAddrOf()
+					return false, "field " + fname + " is read at " + c.P.Pos(firstRead.Pos) + " before an option is applied at " + c.P.Pos(e.Pos) + ": the option's setting comes too late for what was derived from the field"
+				}
+			}
+		}
+		return true, ""
+	})
+	if applied == 0 {
+		c.R.Undecided(rule, pkg+".NewSubscriber#options", "the application of the option functions is recognised", "no dynamic call taking the new Subscriber")
+	}
+}
